@@ -3,7 +3,9 @@
 Must-fail corpus: applies every deliberate property-breaking change (selftest/mutants/*.patch, written by hand,
 and seeded/<id>-<k>/patch.diff, written by independent sub-agents) to a scratch worktree of /repo, runs the
 check(s) of the property it breaks against that worktree (govc check --repo) and requires a VIOLATION line.
-A change whose check stays silent is reported as MISSED and the script exits 1. Worktrees are removed."""
+A change whose check stays silent is reported as MISSED and the script exits 1. The patches under
+selftest/harmless/ are semantics-preserving edits (renamed locals, reordered independent statements, an added no-op):
+there every related check must stay silent (QUIET), an ALARM also makes the script exit 1. Worktrees are removed."""
 import glob, json, os, re, subprocess, sys, tempfile, shutil
 from concurrent.futures import ThreadPoolExecutor
 ENV = dict(os.environ, GOFLAGS="-mod=mod", GOPROXY="off", GOSUMDB="off", GOTOOLCHAIN="local")
@@ -27,6 +29,14 @@ def one(item):
         if rc != 0:
             return name, "STALE", "patch no longer applies"
         hits = []
+        if name.startswith("harmless/"):
+            # a semantics-preserving edit: every check named must stay silent
+            for p in props:
+                rc, out = sh([V + "/bin/govc", "check", "--repo", wt, "--property", p, "--no-evidence", "--replay-dir", os.path.join(wt, ".replay")], timeout=1800)
+                v = [l for l in out.splitlines() if l.startswith("VIOLATION") or l.startswith("ERROR")]
+                if rc != 0 or v:
+                    return name, "ALARM", f"{p}: exit {rc} " + (v[0][:200] if v else "")
+            return name, "QUIET", " ".join(props)
         for p in props:
             rc, out = sh([V + "/bin/govc", "check", "--repo", wt, "--property", p, "--no-evidence", "--replay-dir", os.path.join(wt, ".replay")], timeout=1800)
             n = len([l for l in out.splitlines() if l.startswith("VIOLATION")])
@@ -52,12 +62,16 @@ def main():
         meta = json.load(open(d + "meta.json"))
         props = meta.get("caught_by") or list(meta.get("checks_run", {}).keys()) or [meta["property"]]
         items.append(("seeded/" + n, d + "patch.diff", props))
+    related = {"C19": ["C19"], "C07": ["C07"], "C08": ["C08", "C06"], "C03": ["C03", "C01", "C04", "C12"], "C17": ["C17", "C02", "C04", "C12"], "C16": ["C16", "C04", "C12"], "C11": ["C11", "C07", "C04"], "C12": ["C12", "C13", "C04", "C03"]}
+    for p in sorted(glob.glob(V + "/selftest/harmless/*.patch")):
+        n = os.path.basename(p)[:-6]
+        items.append(("harmless/" + n, p, related.get(n.split("-")[0], [n.split("-")[0]])))
     items = [i for i in items if flt in i[0]]
     bad = 0
     with ThreadPoolExecutor(j) as ex:
         for name, res, info in ex.map(one, items):
             print(f"{res:7s} {name} {info}", flush=True)
-            if res in ("MISSED", "ERROR"):
+            if res in ("MISSED", "ERROR", "ALARM"):
                 bad += 1
     print(f"selftest: {len(items)} changes, {bad} missed/error")
     return 1 if bad else 0
